@@ -279,7 +279,10 @@ def link(draw, blocks, label_pool, allow_replace=True, allow_atype_sel=True, pre
     if allow_replace and draw(st.integers(0, 6)) == 0:
         key = draw(st.sampled_from(keys_all))
         atoms[key] = dict(atoms[key])
-        atoms[key]["replace"] = {"charge": draw(st.sampled_from(CHARGES))}
+        if draw(st.integers(0, 2)) == 0:
+            atoms[key]["replace"] = {"atomname": None}       # the atom is removed
+        else:
+            atoms[key]["replace"] = {"charge": draw(st.sampled_from(CHARGES))}
     return {"resname": "|".join(link_resnames),
             "atoms": [{"key": k, "attrs": v} for k, v in atoms.items()],
             "inter": inter, "edges": edges, "non_edges": non_edges, "patterns": patterns}
